@@ -50,6 +50,11 @@ def run(repo, rep, tier):
              ("read-history-free", "read-always-sniffs"), minimum=2)
     _retire(repo, rep)
     _loader(repo, rep)
+    # "returns the same template object for the same name": the registry key
+    # does not depend on the order the keywords were written in (C14 owns
+    # the key)
+    from . import c14 as _c14
+    L.borrow(repo, rep, "R16.3", "C14", _c14._publish, ("registry-key",))
     L.state_rule(repo, rep)
 
 
